@@ -292,6 +292,7 @@ def matrix_pool(tier, script_fn):
         ('false', False),
         ('0', 0),
         ('-0.0', -0.0),
+        ('0.0', 0.0),
         ('1', 1),
         ('1.0', 1.0),
         ('-1', -1),
